@@ -103,7 +103,7 @@ PROPS = {
     },
     "C10": {
         "statement": "C10_skipped_stage_justified (+ simulation by the five-table builder)",
-        "engines": [plan("plan,deps,barriers,funnel"), plan_nopar("plan,deps,barriers,funnel"), plan_release("plan,deps,barriers,funnel")],
+        "engines": [plan("plan,deps,barriers,funnel,manyres"), plan_nopar("plan,deps,barriers,funnel"), plan_release("plan,deps,barriers,funnel")],
         "aspects": ["layout", "outcome", "maxthreads"],
         "assumptions": [],
     },
